@@ -89,29 +89,33 @@ Rows == {
 }
 RowNames == {r.name : r \in Rows}
 Row(n) == CHOOSE r \in Rows : r.name = n
-PClasses == {"low", "mid", "high", "odd"}      \* value classes per task; the harness maps (row, class) to concrete parameter values
-KeyClasses == {"zero", "nonzero"}
+PClasses == {"low", "mid", "high", "odd", "huge"}      \* value classes per task; the harness maps (row, class) to concrete parameter values ("huge": byte parameters above 1 MiB)
+KeyClasses == {"zero", "nonzero", "wrap"}      \* "wrap": a non-zero key whose IV is a counter value a few blocks before 2^64 - 1 in its low half (the carry goes into the high half inside the first task body)
 MaxBatch == 3
 
 VARIABLES batch,    \* sequence of [row, pclass]
+          looks,    \* how often the operator lists the agent's task queue ("task list") before the agent checks in
           key, params, last, hist
-vars == <<batch, key, params, last, hist>>
+vars == <<batch, looks, key, params, last, hist>>
 
 (* expected decode of one task: constants as given, parameters as the operator issued them *)
 Expected(n, p) == LET r == Row(n) IN [i \in 1..Len(r.fields) |-> IF r.fields[i].par = "" THEN ToString(r.fields[i].k) ELSE p[r.fields[i].par]]     \* values travel as decimal strings / text
 
 Init == /\ batch \in UNION {[1..n -> [row : RowNames, pclass : PClasses]] : n \in 1..1}
+        /\ looks = 0
         /\ key \in KeyClasses /\ params = <<>> /\ last = [op |-> "none"] /\ hist = <<>>
+(* the operator looks at the queue (console command "task list": ids, sizes, command lines): what is delivered stays the same *)
+List == /\ Len(hist) < looks /\ hist' = Append(hist, [op |-> "List"]) /\ UNCHANGED <<batch, looks, key, params, last>>
 (* the operator issued the batch with concrete parameters ps (one record per task); the agent checks in *)
 Deliver(ps) ==
-    /\ hist = <<>>
+    /\ Len(hist) = looks /\ last.op # "Deliver"
     /\ params' = ps
     /\ last' = [op |-> "Deliver", tasks |-> [i \in 1..Len(batch) |-> [cmd |-> Row(batch[i].row).cmd, req |-> i, vals |-> Expected(batch[i].row, ps[i])]],
                 clear |-> FALSE]
-    /\ hist' = <<[op |-> "Deliver"]>> /\ UNCHANGED <<batch, key>>
+    /\ hist' = Append(hist, [op |-> "Deliver"]) /\ UNCHANGED <<batch, looks, key>>
 ParNames(n) == {Row(n).fields[i].par : i \in 1..Len(Row(n).fields)} \ {""}
 SymParams == [i \in 1..Len(batch) |-> [q \in ParNames(batch[i].row) |-> q]]      \* model checking: a parameter stands for itself
-Next == Deliver(SymParams)
+Next == List \/ Deliver(SymParams)
 Spec == Init /\ [][Next]_vars
 -----------------------------------------------------------------------------
 (* C02 *)
@@ -120,5 +124,5 @@ AsIssued == last.op = "Deliver" =>
                /\ \A i \in 1..Len(batch) : /\ last.tasks[i].cmd = Row(batch[i].row).cmd
                                            /\ last.tasks[i].req = i
                                            /\ last.tasks[i].vals = Expected(batch[i].row, params[i])
-NeverInClear == last.op = "Deliver" /\ key = "nonzero" => ~last.clear
+NeverInClear == last.op = "Deliver" /\ key # "zero" => ~last.clear
 =============================================================================
